@@ -1,6 +1,8 @@
 import Driver.Proto
 import Driver.Mp4
 import MediaSan.Adapters
+import MediaSan.Webp.Sanitize
+import MediaSan.Lemmas.Hoare
 namespace Driver.C15
 open MediaSan
 
@@ -39,9 +41,62 @@ def runOps {σ} (ops : CursorOps σ) : List Op → σ → List String
       | .ok (p, st') => toString p :: runOps ops rest st'
       | .error e => errText e :: runOps ops rest st
 
+/-- the ideal cursor over the same bytes, confined to the chunk body that ends at `bodyEnd` -/
+def bodyOps (s : Stream) (bodyEnd : Nat) : CursorOps Nat :=
+  let i := idealOps s .seekable
+  { i with
+    readExact := fun pos n =>
+      if n = 0 then .ok ([], pos) else if pos + n ≤ bodyEnd then i.readExact pos n else .error .unexpectedEof
+    skip := fun pos n => if pos + n ≤ bodyEnd then i.skip pos n else .error .unexpectedEof }
+
+/-- the model of `ChunkDataReader` at level `k` (Webp/Sanitize.lean `rawRead` / `rawSkip`), history by history -/
+def runD (s : Stream) (k : Nat) : List Op → Webp.RS → Nat → List String
+  | [], _, _ => []
+  | .read n :: rest, r, pos =>
+    match (Webp.rawRead r k n).runF (idealOps s .seekable) pos with
+    | .ok ((b, r'), pos') => toHex b :: runD s k rest r' pos'
+    | .parseErr _ => "EUnexpectedEof" :: runD s k rest r pos
+    | .ioErr e => errText e :: runD s k rest r pos
+    | _ => "model-panic" :: runD s k rest r pos
+  | .skip n :: rest, r, pos =>
+    match (Webp.rawSkip r k n).runF (idealOps s .seekable) pos with
+    | .ok (r', pos') => "ok" :: runD s k rest r' pos'
+    | .parseErr _ => "EUnexpectedEof" :: runD s k rest r pos
+    | .ioErr e => errText e :: runD s k rest r pos
+    | _ => "model-panic" :: runD s k rest r pos
+  | .pos :: rest, r, pos => toString pos :: runD s k rest r pos
+  | .len :: rest, r, pos => toString s.len :: runD s k rest r pos
+
+def handleChunkData (kv : KV) (s : Stream) (depth : Nat) (opsS impl : String) : String :=
+  let id := kv.getD "id" "?"
+  let ops := parseOps opsS
+  let ideal0 := idealOps s .seekable
+  let len0 := leToNat (s.read 4 4)
+  let bodyEnd := if depth == 1 then 8 + len0 else min (8 + len0) (16 + leToNat (s.read 12 4))
+  let start := if depth == 1 then 8 else 16
+  let ideal := ",".intercalate (runOps (bodyOps s bodyEnd) ops start)
+  let init : Option (Webp.RS × Nat) :=
+    match (Webp.readAnyHeader {} 0).runF ideal0 0 with
+    | .ok ((_, r), pos) =>
+      if depth == 1 then some (r, pos)
+      else match (Webp.readAnyHeader r 1).runF ideal0 pos with
+        | .ok ((_, r'), pos') => some (r', pos')
+        | _ => none
+    | _ => none
+  if impl == "panic" then s!"SPEC {id} which=no-panic sig=C15:panic:chunkdata{depth}"
+  else if impl != ideal then s!"SPEC {id} which=differs-from-ideal-cursor sig=C15:chunkdata{depth} ops={opsS.take 60} impl={impl.take 120} ideal={ideal.take 120}"
+  else match init with
+    | none => s!"DIFF {id} model=no-header impl={impl.take 120}"
+    | some (r, pos) =>
+      let m := ",".intercalate (runD s depth ops r pos)
+      if m != impl then s!"DIFF {id} model={m.take 120} impl={impl.take 120}"
+      else s!"OK {id} tags=chunkdata{depth},n{min ops.length 9}"
+
 def handle (kv : KV) : String :=
   match Driver.Mp4.parseStream kv, kv.get? "adapter", kv.nat? "cap", kv.get? "ops", kv.get? "impl" with
   | some s, some adapter, some cap, some opsS, some impl =>
+    if adapter == "chunkdata1" then handleChunkData kv s 1 opsS impl
+    else if adapter == "chunkdata2" then handleChunkData kv s 2 opsS impl else
     let id := kv.getD "id" "?"
     let ops := parseOps opsS
     let big := 0x7fffffffffffffff
